@@ -72,12 +72,25 @@ class PyEval:
 
     def _inline_call(self, call: ast.Call, p: PPath):
         """-> [(path, value)] (value None for a raising path) or None if the call is not inlined"""
-        if self.resolver is None or len(self._inlining) >= self.max_inline:
+        if len(self._inlining) >= self.max_inline:
             return None
         if any(isinstance(a, ast.Starred) for a in call.args) or any(k.arg is None for k in call.keywords):
             return None
         env = dict(p.env)
-        hit = self.resolver(call, env, self)
+        # a function defined earlier in the function under evaluation (a closure): its free variables are the caller's bindings
+        # at the time of the call (Python closures bind late), its own locals do not leak back
+        closure = False
+        hit = None
+        if isinstance(call.func, ast.Name):
+            ld = env.get(call.func.id)
+            if isinstance(ld, tuple) and len(ld) == 3 and ld[0] == 'localdef' and ld[2] in self.localdefs:
+                g = self.localdefs[ld[2]]
+                if not any(isinstance(n, (ast.Nonlocal, ast.Global)) for n in ast.walk(g)):
+                    hit, closure = (g, None), True
+        if hit is None:
+            if self.resolver is None:
+                return None
+            hit = self.resolver(call, env, self)
         if hit is None:
             return None
         fn, selfval = hit
@@ -100,7 +113,7 @@ class PyEval:
         kwv = {k.arg: self.expr(k.value, env, ev) for k in call.keywords}
         allpos = list(fn.args.posonlyargs + fn.args.args)
         params = list(allpos)
-        cenv = {k: v for k, v in env.items() if isinstance(k, tuple)}
+        cenv = dict(env) if closure else {k: v for k, v in env.items() if isinstance(k, tuple)}
         if selfval is not None:
             if not params:
                 return None
@@ -917,7 +930,11 @@ class PyEval:
                     self.expr(e.upper, env, ev) if e.upper else None,
                     self.expr(e.step, env, ev) if e.step else None)
         if isinstance(e, ast.IfExp):
-            return ('ifexp', self.expr(e.test, env, ev), self.expr(e.body, env, ev), self.expr(e.orelse, env, ev))
+            t_ = self.expr(e.test, env, ev)
+            if isinstance(t_, tuple) and len(t_) == 2 and t_[0] == 'const' and isinstance(t_[1], bool):
+                # a decided test: only the chosen operand is evaluated (as Python does)
+                return self.expr(e.body if t_[1] else e.orelse, env, ev)
+            return ('ifexp', t_, self.expr(e.body, env, ev), self.expr(e.orelse, env, ev))
         if isinstance(e, ast.NamedExpr):
             v = self.expr(e.value, env, ev)
             env[e.target.id] = v
